@@ -456,7 +456,7 @@ namespace ss
         heap.begin_op(0);
         using EmptyStateful = fm::allocator_storage<fm::direct_storage<EmptyStatefulProbe>, SimMutex>;
         std::unique_ptr<EmptyStateful> emptystateful;
-        switch (variant % 12)
+        switch (variant % 13)
         {
         case 5:
             EmptyStatefulProbe::state() = &st;
@@ -520,6 +520,19 @@ namespace ss
                             stateless->deallocate_node(p, 0, 8);
                     });
             break;
+        case 12:
+        {
+            // the factory with the default mutex: make_thread_safe_allocator(alloc) -> std::mutex, which is played
+            // by a SimMutex here (pthread_mutex_lock/unlock wrapped for mutexes inside this object)
+            auto made  = fm::make_thread_safe_allocator(Probe(&st));
+            using Made = decltype(made);
+            static Made* obj = nullptr;
+            obj              = new Made(std::move(made)); // (never destroyed: parked tasks may still refer to it)
+            simulate_std_mutexes_in(obj, obj + 1);
+            for (int t = 0; t < ntasks; ++t)
+                sched.spawn([&, t] { task_body(*obj, per[std::size_t(t)], true, &hash); });
+            break;
+        }
         case 8:
         case 9:
         case 10:
@@ -542,7 +555,7 @@ namespace ss
             v11.reset();
             ThrowingMutex::countdown() = 0;
             ThrowingMutex::thrown()    = 0;
-            int v = variant % 12;
+            int v = variant % 13;
             if (v == 8)
                 v8.reset(new V8(TrackedSL(TsTracker{&st}, StatelessProbe{})));
             else if (v == 9)
@@ -626,7 +639,7 @@ namespace ss
             shadow.reset();
             g_upstream_hook     = [](const char* site) { sim_yield(site); };
             g_new_handler_calls = 0;
-            const bool use_new  = variant % 12 == 7;
+            const bool use_new  = variant % 13 == 7;
             static fm::allocator_storage<fm::direct_storage<SimLowLevel>, SimMutex>     ts_ll{SimLowLevel{}};
             static fm::allocator_storage<fm::direct_storage<fm::new_allocator>, SimMutex> ts_new{fm::new_allocator{}};
             if (use_new)
@@ -755,15 +768,16 @@ namespace ss
         }
         }
         sched.run();
+        simulate_std_mutexes_in(nullptr, nullptr);
         g_upstream_hook = nullptr;
-        if (variant % 12 == 7)
+        if (variant % 13 == 7)
         {
             std::set_new_handler(nullptr);
             heap.set_exhausted(false);
             stats().hit("reach.new_handler_calls", g_new_handler_calls);
         }
         std::string leak_problem;
-        if (variant % 12 == 6 && !sched.deadlock && !sched.budget_exhausted)
+        if (variant % 13 == 6 && !sched.deadlock && !sched.budget_exhausted)
         {
             // everything was released: the process-wide net of this allocator type must be zero. Ending the last
             // counter object reports a non-zero net to the leak handler.
@@ -796,7 +810,7 @@ namespace ss
         hash.add(st.calls);
         stats().hit("reach.scheduling_decisions", sched.steps);
         stats().hit("reach.preemptions", sched.preemptions);
-        stats().hit("variant." + std::to_string(variant % 12));
+        stats().hit("sut.ts_variant_" + std::to_string(variant % 13));
         res.nontrivial = sched.preemptions >= 2;
         auto bad = [&](const char* cls, const std::string& facts)
         {
@@ -830,12 +844,12 @@ namespace ss
                 cls = "mutex_protocol";
             bad(cls.c_str(), sched.problem);
         }
-        else if (variant % 12 == 3 && SimMutex::locks_taken() != 0)
+        else if (variant % 13 == 3 && SimMutex::locks_taken() != 0)
             bad("stateless_locked", "a stateless allocator was wrapped with a real mutex ("
                                         + std::to_string(SimMutex::locks_taken()) + " lock operations)");
-        else if ((variant % 12 == 6 || variant % 12 == 7) && SimMutex::locks_taken() != 0)
+        else if ((variant % 13 == 6 || variant % 13 == 7) && SimMutex::locks_taken() != 0)
             bad("stateless_locked", "a stateless low-level allocator was wrapped with a real mutex");
-        else if ((variant % 12 < 3 || variant % 12 == 5 || variant % 12 >= 8) && st.occupancy != 0)
+        else if ((variant % 13 < 3 || variant % 13 == 5 || variant % 13 >= 8) && st.occupancy != 0)
             bad("overlap", "occupancy counter not back to zero");
         if (res.fatal)
             return; // parked threads reference the objects above: leak them
